@@ -308,8 +308,9 @@ static int utls_server(struct xcm_socket *s, const char *local_addr)
     char ux_addr[XCM_ADDR_MAX+1];
     map_tls_to_ux(actual_addr, ux_addr, sizeof(ux_addr));
 
+    /* the TLS server socket is bound at this point, and must be closed */
     if (bind_sub_server(&us->ux_socket, ux_addr) <  0)
-	goto err;
+	goto err_close_both;
 
     LOG_SERVER_CREATED(s);
 
